@@ -77,13 +77,19 @@ CHECKS = {
                      "De Morgan, null propagation, equality an equivalence, order operators mutually consistent and congruent with "
                      "equality, exact int/float comparison, one overflow rule for + - * unary- abs sum).",
                 note="laws are checked on observed tables; the oracle's own laws are checked by TLC first"),
+    "C27": dict(ref="5 C27", tech="TLC model checking of OrderedKey.tla (exhaustive at reduced width) + TLA+ trace validation (OrderedKeyTrace) of the real encoder",
+                text="OrderedKey.tla transcribes the encoding at reduced width (4-bit integers, 6-bit minifloats, strings over {0,1,255}); TLC "
+                     "checks order preservation, equality and prefix-freeness for every pair, and that dropping the -0.0 normalisation is "
+                     "caught; the real encode_ordered_value is recorded for boundary and seeded 64-bit values and every pair is judged by "
+                     "OrderedKeyTrace.tla with exact integer / dyadic comparison.",
+                note="NaN excluded as in the property; lists/maps are outside the property's quantifier"),
     "C28": dict(ref="5 C28", tech="TLA+ trace validation (StorageTrace)",
                 text=TRACE_TXT + "close, vacuum, reopen, dump, write, reopen.",
                 note="vacuum of a cleanly closed database only"),
 }
 
 # properties whose check has been run green on the unchanged tree
-ENABLED = ["C01", "C02", "C04", "C05", "C06", "C07", "C08", "C11", "C17", "C19", "C20", "C21", "C22", "C23", "C26", "C28"]
+ENABLED = ["C01", "C02", "C04", "C05", "C06", "C07", "C08", "C11", "C17", "C19", "C20", "C21", "C22", "C23", "C26", "C27", "C28"]
 
 NOT_APPLICABLE = {
     "C16": "quantifies over arbitrary byte strings and resource exhaustion; no state machine to specify, a fuzzer's job (DESIGN.md 6)",
